@@ -8,7 +8,7 @@ from .common import Driver, Timer, Verdict, lean_gate, write_evidence, seed, TRU
 from . import check_world as CW
 
 MODULES = {
-    "C02": ["NSG.Properties.C02"],
+    "C02": ["NSG.Properties.C02", "NSG.Properties.SystemInv"],
     "C03": ["NSG.Properties.C03", "NSG.Properties.C03Loader", "NSG.Properties.SystemInv"],
     "C08": ["NSG.Properties.C08", "NSG.Properties.SystemInv"],
     "C11": ["NSG.Properties.C11", "NSG.Properties.SystemInv"],
